@@ -613,7 +613,7 @@ pub struct GuessCase {
     pub later: u8,
 }
 
-fn add_be(v: &[u8], k: u64) -> Vec<u8> {
+pub fn add_be(v: &[u8], k: u64) -> Vec<u8> {
     let mut out = v.to_vec();
     let mut carry = k as u128;
     for b in out.iter_mut().rev() {
